@@ -64,7 +64,12 @@ class SymEnv:
             c.add('assumptions', v < sym.qval(hi) if hi_open else v <= sym.qval(hi))
         if ne is not None:
             c.add('assumptions', v != sym.qval(ne))
-        return SymReal(v, None if sample is None else float(sample))
+        if sample is None:
+            # printing shadow only ("%g" of a count inside an error message / str()): any value in range
+            l = 0.5 if lo is None else float(lo)
+            hgh = l + 3.0 if hi is None else float(hi)
+            sample = l + (hgh - l) * (0.25 + 0.5 * ((sum(map(ord, name)) * 37) % 101) / 101.0)
+        return SymReal(v, float(sample))
 
     def pos(self, name, sample=None):
         return self.real(name, lo=0, lo_open=True, sample=sample)
